@@ -54,6 +54,14 @@ func (o Op) String() string {
 		return fmt.Sprintf("h%d.sync", o.H)
 	case "hclose":
 		return fmt.Sprintf("h%d.close", o.H)
+	case "htrunc":
+		return fmt.Sprintf("h%d.truncate(%d)", o.H, o.N)
+	case "hwriteat":
+		return fmt.Sprintf("h%d.writeat(%s,%d)", o.H, strconv.Quote(o.C), o.N)
+	case "hwritestring":
+		return fmt.Sprintf("h%d.writestring(%s)", o.H, strconv.Quote(o.C))
+	case "create", "readlink", "lstat":
+		return o.K + " " + o.P
 	case "mkdir", "mkdirall", "remove", "removeall", "stat", "list", "read":
 		return fmt.Sprintf("%s %s", o.K, o.P)
 	case "put":
@@ -147,8 +155,8 @@ var (
 )
 
 const (
-	ChownUID = 4242
-	ChownGID = 4343
+	ChownUID = 918273645
+	ChownGID = 192837465
 )
 
 // ExecModel applies op to the reference model and returns the failure reason ("" = success).
@@ -239,7 +247,7 @@ func ExecModel(m *model.FS, o Op) string {
 
 // ExecImpl runs op against the real file system and returns its error.
 func ExecImpl(s *rig.Stack, o Op) error {
-	fsys := s.FS
+	var fsys afero.Fs = s.AFS
 	switch o.K {
 	case "mkdir":
 		return fsys.Mkdir(o.P, 0o755)
@@ -274,7 +282,10 @@ func ExecImpl(s *rig.Stack, o Op) error {
 	case "chtimes":
 		return fsys.Chtimes(o.P, T1, T2)
 	case "symlink":
-		return fsys.SymlinkIfPossible(o.P, o.Q)
+		if l, ok := fsys.(afero.Linker); ok {
+			return l.SymlinkIfPossible(o.P, o.Q)
+		}
+		return errors.New("harness: file system has no symlink support")
 	case "openw":
 		f, err := fsys.OpenFile(o.P, o.N, 0o644)
 		if err != nil {
@@ -332,7 +343,25 @@ func ExecImpl(s *rig.Stack, o Op) error {
 		}
 		s.Handles[o.H] = &rig.Handle{F: f, Path: o.P, Flags: o.N}
 		return nil
-	case "hread", "hreadall", "hwrite", "hsync", "hclose", "hseek":
+	case "create":
+		f, err := fsys.Create(o.P)
+		if err != nil {
+			return err
+		}
+		return f.Close()
+	case "readlink":
+		if l, ok := fsys.(afero.LinkReader); ok {
+			_, err := l.ReadlinkIfPossible(o.P)
+			return err
+		}
+		return errors.New("harness: no readlink support")
+	case "lstat":
+		if l, ok := fsys.(afero.Lstater); ok {
+			_, _, err := l.LstatIfPossible(o.P)
+			return err
+		}
+		return errors.New("harness: no lstat support")
+	case "hread", "hreadall", "hwrite", "hsync", "hclose", "hseek", "htrunc", "hwriteat", "hwritestring":
 		h := s.Handles[o.H]
 		if h == nil {
 			return ErrNoHandle
@@ -356,6 +385,17 @@ func ExecImpl(s *rig.Stack, o Op) error {
 			return err
 		case "hseek":
 			_, err := h.F.Seek(int64(o.N), 0)
+			return err
+		case "htrunc":
+			h.Writes++
+			return h.F.Truncate(int64(o.N))
+		case "hwriteat":
+			h.Writes++
+			_, err := h.F.WriteAt(Content(o.C), int64(o.N))
+			return err
+		case "hwritestring":
+			h.Writes++
+			_, err := h.F.WriteString(string(Content(o.C)))
 			return err
 		case "hsync":
 			return h.F.Sync()
